@@ -28,6 +28,7 @@ func abbrevPrint(s string) string {
 }
 
 func runC17(c *Ctx) {
+	defer c.shared("R8", "C13/R6", "a bare print prints $: print followed by a newline has an empty argument list only if the newline ends the statement whatever the next line starts with", keyHas("newline-ends-statement", "statement-end-caller (*lang.Parser).printStatement", "flag-read"), c13NewlineFlag)
 	p := c.P
 	es := p.LangFunc("(*Evaluator).evalStatement")
 	if es == nil {
